@@ -39,7 +39,7 @@ def main(tier, replay):
         for k in (9, 17):
             for st in ((0, 1, 2, 4) if not quick else (0, 2)):
                 J('long%d-strat%d-%s' % (k, st, n), n, [0, k, 1, 1, 1, 0, 0, st, 0, 0, 0])
-        if not quick:
+        if not quick and len(P[n].columns()) <= 3:
             J('per-stream-strat-%s' % n, n, [0, 2, 2, 1, 1, 0, 1, -1, 0, 0, 0])
     # 520 / 1030 levels in one bit-packed run (65 / 129 groups: two-byte run header)
     for k in ((65,) if quick else (65, 129)):
